@@ -95,10 +95,25 @@ impl Model {
         let flat: Vec<VarId> = matrix.iter().flat_map(|row| row.iter().copied()).collect();
         let cols = if matrix.is_empty() { 0 } else { matrix[0].len() };
         
+        // The linearisation below is only meaningful for a rectangular matrix: report a ragged one from the solving call
+        if matrix.iter().any(|row| row.len() != cols) {
+            self.constraint_validation_errors.push(crate::core::error::SolverError::InvalidConstraint {
+                message: "Element constraint validation error: every row of the matrix must have the same length".to_string(),
+                constraint_name: Some("element_2d".to_string()),
+                variables: None,
+            });
+        }
+
         if cols == 0 {
             // Edge case: empty matrix, just create a dummy constraint
             return self.props.element(flat, row_idx, value);
         }
+
+        // Each index must address a cell of its own dimension. Without this only the linearised index is
+        // constrained, and (row 0, col `cols`) would silently read matrix[1][0]. With the column in range the
+        // range of the linearised index bounds the row.
+        self.props.greater_than_or_equals(col_idx, crate::variables::Val::ValI(0));
+        self.props.less_than_or_equals(col_idx, crate::variables::Val::ValI(cols as i32 - 1));
         
         // Compute linear index: row_idx * cols + col_idx
         // Use expression builder for the computation
@@ -159,9 +174,25 @@ impl Model {
         let rows = if cube.is_empty() { 0 } else { cube[0].len() };
         let cols = if rows == 0 { 0 } else { cube[0][0].len() };
         
+        // The linearisation below is only meaningful for a rectangular cube: report a ragged one from the solving call
+        if cube.iter().any(|matrix| matrix.len() != rows || matrix.iter().any(|row| row.len() != cols)) {
+            self.constraint_validation_errors.push(crate::core::error::SolverError::InvalidConstraint {
+                message: "Element constraint validation error: every layer of the cube must have the same number of rows and every row the same length".to_string(),
+                constraint_name: Some("element_3d".to_string()),
+                variables: None,
+            });
+        }
+
         if rows == 0 || cols == 0 {
             return self.props.element(flat, depth_idx, value);
         }
+
+        // Each index must address a cell of its own dimension (see element_2d); with row and column in range
+        // the range of the linearised index bounds the depth.
+        self.props.greater_than_or_equals(row_idx, crate::variables::Val::ValI(0));
+        self.props.less_than_or_equals(row_idx, crate::variables::Val::ValI(rows as i32 - 1));
+        self.props.greater_than_or_equals(col_idx, crate::variables::Val::ValI(0));
+        self.props.less_than_or_equals(col_idx, crate::variables::Val::ValI(cols as i32 - 1));
         
         // Compute linear index: depth_idx * (rows * cols) + row_idx * cols + col_idx
         let linear_idx_expr = add(
